@@ -95,6 +95,7 @@ def verdict (_ : Unit) (line : String) : Unit × String :=
   | some "req" =>
     let res := C09.kvOf iw "res"
     if res.toNat?.isSome && res != kv "id" then ((), s!"FAIL request {kv "id"} was handed the reply to request {res}")
+    else if res == "" then ((), s!"FAIL request {kv "id"} came back without an error and without a reply (a peer that never answered counts as having answered)")
     else if (C09.kvOf iw "live").toNat! > 1 then ((), "FAIL more than one stream open to the peer") else ((), "ok")
   | some "parfail" =>
     let bad := (splitList (C09.kvOf iw "waiters")).any fun (t : String) => match t.splitOn ":" with
